@@ -8,7 +8,7 @@ V = os.path.dirname(os.path.dirname(os.path.abspath(__file__)))
 prefix, ids = sys.argv[1], sys.argv[2:]
 for pid in ids:
     P = pid.upper()
-    for k in (1, 2, 3):
+    for k in [int(x) for x in os.environ.get('KS', '1,2,3').split(',')]:
         src = '%s%s/seeded/%d' % (prefix, pid, k)
         if not os.path.exists(os.path.join(src, 'patch.diff')):
             print(P, k, 'no patch'); continue
